@@ -341,6 +341,8 @@ def _run_git(case, obs):
         obs.cls("git:local-branches-from-earlier-runs")
     if case.get("lookalike"):
         obs.cls("git:on-lookalike-branch")
+    if case.get("slash_branches"):
+        obs.cls("git:unrelated-branch-with-slash-and-version-tail")
 
     td = tempfile.mkdtemp(prefix="verif-c15-")
     saved_env = {k: os.environ.get(k) for k in list(_GIT_ENV) + ["HOME"]}
@@ -520,6 +522,13 @@ def _git_case(draw, known):
     branches = [b for b in draw(_branch_set(version, not core.signature_matches(F2, known), force_master=True)) if not b.startswith("v")]
     case = {"mode": mode, "branches": list(branches), "version": version}
     vp = _version_parts(version)
+    if vp and draw(st.booleans()):
+        # unrelated branches whose name has a slash and ends like a version (archive/7.4, users/joe/9): they are no versioned branches
+        pool = [f"archive/{vp[0]}.{vp[1]}", f"rel/{vp[0]}", f"users/joe/{vp[0] + 1}", f"old/{vp[0]}.{max(vp[1] - 1, 0)}", f"wip/{vp[0]}.{vp[1]}.{vp[2]}"]
+        for b in draw(st.lists(st.sampled_from(pool), min_size=1, max_size=2, unique=True)):
+            if b.rpartition("/")[2] not in case["branches"]:  # (git cannot hold both a branch x and a branch x/y; keep the tail free as well)
+                case["branches"].append(b)
+        case["slash_branches"] = True
     tags = []
     if vp and draw(st.booleans()):
         pool = [f"v{_name(vp[0])}", f"v{_name(vp[0], vp[1])}", f"v{_name(vp[0], vp[1], vp[2])}", f"v{vp[0] + 1}", f"v{_name(vp[0], vp[1] + 1)}", "v1.0.0", "release-1"]
